@@ -226,7 +226,7 @@ fn chunk_positions(spec: &FileSpec, kind: &str) -> Vec<(usize, usize)> {
     v
 }
 
-pub const MODEL_OPS: [&str; 52] = [
+pub const MODEL_OPS: [&str; 56] = [
     "cel_payload_short",
     "cel_payload_long",
     "cel_decl_bigger",
@@ -279,6 +279,10 @@ pub const MODEL_OPS: [&str; 52] = [
     "sixbit_component_out_of_range",
     "palette_shifted_high",
     "many_wide_tags",
+    "late_tile_id_oob",
+    "late_cel_payload_short",
+    "late_link_to_missing",
+    "late_tileset_mismatch",
 ];
 
 fn fmt_of(spec: &FileSpec) -> Fmt {
@@ -795,6 +799,52 @@ pub fn model_input(base: &Base, op: usize, rng: &mut Rng, deep_groups: usize) ->
                 spec.frames[0].chunks.push(ChunkSpec::Tags { tags, reserved: [0; 8], tag_reserved: [0; 6] }.into());
             }
             label = format!("{} tags each spanning frames 0..=65535", k);
+        }
+        "late_tile_id_oob" | "late_cel_payload_short" | "late_link_to_missing" | "late_tileset_mismatch" => {
+            // the inconsistency sits far from the start: frame index >= 256, the last of several tilesets
+            // (ids 0, 300, 70000), the last layer - where "validate only the first N" slips would miss it
+            let nf = 260usize;
+            let mut sp = Sprite::blank(4, 4, Fmt::Rgba, nf);
+            for (k, id) in [0u32, 300, 70_000].iter().enumerate() {
+                sp.tilesets.push(TilesetM { id: *id, flags: TS_EMBED | TS_ZERO_EMPTY, count: 4, tw: 2, th: 2, base_index: 1, name: format!("ts{}", k), ext: None, pixels: { let mut p = vec![0u8; 16]; p.extend(rng.bytes(48)); p } });
+            }
+            sp.layers.push(LayerM::image("img"));
+            for id in [0u32, 300, 70_000] {
+                let mut l = LayerM::image("tm");
+                l.kind = LayerKind::Tilemap(id);
+                sp.layers.push(l);
+            }
+            let last_layer = (sp.layers.len() - 1) as u16;
+            for f in [0u16, 255, 256, 259] {
+                sp.cels.insert((f, 0), CelM { x: 0, y: 0, opacity: 255, content: CelContentM::Image { w: 2, h: 2, pixels: rng.bytes(16) }, ud: None });
+                sp.cels.insert((f, last_layer), CelM { x: 0, y: 0, opacity: 255, content: CelContentM::Tilemap { w: 2, h: 2, tiles: vec![1, 2, 3, 0], masks: [0x1fff_ffff, 0x2000_0000, 0x4000_0000, 0x8000_0000] }, ud: None });
+            }
+            match name {
+                "late_tile_id_oob" => {
+                    if let Some(CelM { content: CelContentM::Tilemap { tiles, .. }, .. }) = sp.cels.get_mut(&(259, last_layer)) {
+                        tiles[3] = 4;
+                    }
+                    label = "tile id == tile count in the tilemap cel of frame 259 on the last layer (tileset id 70000)".into();
+                }
+                "late_cel_payload_short" => {
+                    if let Some(CelM { content: CelContentM::Image { pixels, .. }, .. }) = sp.cels.get_mut(&(256, 0)) {
+                        pixels.truncate(12);
+                    }
+                    label = "compressed cel of frame 256 carries 3 of 4 pixels".into();
+                }
+                "late_link_to_missing" => {
+                    sp.cels.insert((258, 0), CelM { x: 0, y: 0, opacity: 255, content: CelContentM::Link(257), ud: None });
+                    label = "linked cel in frame 258 pointing at frame 257, which has no cel".into();
+                }
+                _ => {
+                    sp.tilesets[2].count = 5;
+                    label = "the third tileset (id 70000) declares 5 tiles but carries 4".into();
+                }
+            }
+            let mut r = Rng::new(6);
+            let mut v = Variation::none();
+            v.default_storage = Storage::Zlib(6);
+            spec = crate::program::compile(&sp, &mut r, &v);
         }
         "zlib_garbage" => {
             // corrupt the compressed stream of a cel / tileset after encoding
